@@ -68,7 +68,7 @@ fn c14_all() {
         ("package p; enum E {", ["A = 1,", "B,", "C = \"c\","], ",", "}"),
     ];
     // malformed members (without their terminator): none contains `;` `{` `}` (nor `,` - used for all three body kinds)
-    let garbage = ["int", "void f(", "= 3", "in out", "String String x", "x y z", "void f(int a", "const int", "123", "\"str\"", "List<", "-", "f()", "oneway", "void f(int)) = 2", "int 5x", "\u{e9}", "@", "x = = 1", ")", "void void", "import a.b", "package q", "void interface foo()", "parcelable Inner", "enum", "interface I", "oneway interface", "x enum y"];
+    let garbage = ["int", "void f(", "= 3", "in out", "String String x", "x y z", "void f(int a", "const int", "123", "\"str\"", "List<", "-", "f()", "oneway", "void f(int)) = 2", "int 5x", "\u{e9}", "@", "x = = 1", ")", "void void", "import a.b", "package q", "void interface foo()", "parcelable Inner", "enum", "interface I", "oneway interface", "x enum y", "@Marker (", "@Marker ( key =", "@A ( x", "@A ( k = 1", "@A @B ("];
     let mut out: Vec<String> = Vec::new();
     let mut evals = 0usize;
     for (head, sibs, term, close) in bodies.iter() {
@@ -90,6 +90,8 @@ fn c14_all() {
                 src += sep; src += close;
                 let (shape, errs) = parse(&src);
                 let unlexable = g.chars().any(|c| !c.is_ascii()) || *g == "@";
+                let open_ann = *term == "," && g.starts_with('@') && g.contains('(') && !g.trim_end().ends_with('(') && !g.trim_end().ends_with('=');
+                let w0 = out.len();
                 match shape {
                     None => out.push(format!("WITNESS {}malformed member {:?} at position {}: no tree ({:?}); source: {:?}", if unlexable { "(unlexable character) " } else { "" }, g, pos, errs.iter().map(|e| &e.2).collect::<Vec<_>>(), src)),
                     Some(s) => {
@@ -109,14 +111,17 @@ fn c14_all() {
                 for (a, b, m) in errs.iter() {
                     if *a < g_start || *b > g_end { out.push(format!("WITNESS malformed member {:?} at position {} (extent {}..{}): Error {:?} at {}..{} lies outside it; source: {:?}", g, pos, g_start, g_end, m.chars().take(80).collect::<String>(), a, b, src)); }
                 }
+                if open_ann { for w in out[w0..].iter_mut() { *w = w.replacen("WITNESS ", "WITNESS (unclosed annotation parameters in an enum body) ", 1); } }
             } }
         }
     }
     let total = out.len();
     out.sort(); out.dedup();
     // lines of the recorded finding (unlexable character) last and capped separately, so that they never crowd out anything else
-    for w in out.iter().filter(|w| !w.contains("(unlexable character)")).take(60) { println!("{}", w.chars().take(700).collect::<String>()); }
+    let recorded = |w: &String| w.contains("(unlexable character)") || w.contains("(unclosed annotation parameters in an enum body)");
+    for w in out.iter().filter(|w| !recorded(w)).take(60) { println!("{}", w.chars().take(700).collect::<String>()); }
     for w in out.iter().filter(|w| w.contains("(unlexable character)")).take(8) { println!("{}", w.chars().take(700).collect::<String>()); }
-    println!("ORACLE-STATS evaluations={} distinct={} rule=one body with one malformed member each: 3 body kinds x 2 layouts x 29 malformed members x 4 positions among 3 well-formed siblings; tree present, siblings' shape unchanged, at least one Error, every Error inside the malformed member's extent (witness lines: {})", evals, evals, total);
+    for w in out.iter().filter(|w| w.contains("(unclosed annotation parameters in an enum body)")).take(8) { println!("{}", w.chars().take(700).collect::<String>()); }
+    println!("ORACLE-STATS evaluations={} distinct={} rule=one body with one malformed member each: 3 body kinds x 2 layouts x 34 malformed members x 4 positions among 3 well-formed siblings; tree present, siblings' shape unchanged, at least one Error, every Error inside the malformed member's extent (witness lines: {})", evals, evals, total);
     assert!(out.is_empty(), "witness found");
 }
